@@ -702,6 +702,8 @@ func (w *worker[T, JobType]) Restart() error {
 		return ErrNotRunningWorker
 	}
 
+	// the previous run's idle-worker reaper ends with its run
+	w.stopTickers()
 	w.closeChannels()
 
 	w.mx.Lock()
